@@ -114,7 +114,7 @@ def check(ctx: Ctx):
     ctx.check(len(okv) == 1 and (f"{pv} in {pd}.values", True) in _facts(ffc, okv[0]), "R-CHECKVALUE", "allowed list checked on the converted value", cpv, okv[0] if okv else cpv.node,
               "when allowed values are declared the value is accepted only if it belongs to them")
     # order: conversion before the values test
-    vt = [n for n in cpv.node.body if isinstance(n, ast.If) and norm(n.test) == f"{pd}.values"]
+    vt = [n for n in cpv.node.body if isinstance(n, ast.If) and norm(n.test) in (f"{pd}.values", f"not {pd}.values")]
     tt = [n for n in cpv.node.body if isinstance(n, ast.If) and norm(n.test) == f"not is_of_type_by_str({pv}, {pd}.type)"]
     early = [st for st in (cpv.node.body[:cpv.node.body.index(tt[0]) + 1] if tt else cpv.node.body) if any(norm(x) == f"{pd}.values" for x in ast.walk(st))]
     ctx.check(len(vt) == 1 and len(tt) == 1 and cpv.node.body.index(tt[0]) < cpv.node.body.index(vt[0]) and not early, "R-CHECKVALUE", "type conversion precedes every use of the allowed values", cpv,
